@@ -401,3 +401,290 @@ class TagOnly(Contract):
                        for a in ("shape", "dtype", "axes"))
             h.oblige("mpms.only-tags-differ", z3.BoolVal(
                 same and new.tags == x.tags | {ImplStored()}))
+
+
+# {{{ whole transformations on sampled programs (translation validation)
+
+import numpy as np  # noqa: E402
+
+import pytato as pt  # noqa: E402
+from pyvc.den import ArrayModel  # noqa: E402
+
+def _transformations():
+    """name -> callable(DictOfNamedArrays) -> DictOfNamedArrays"""
+    import pytato.transform as T
+    from pytato.transform.lower_to_index_lambda import to_index_lambda
+
+    def lower_all(d):
+        return pt.make_dict_of_named_arrays(
+            {k: to_index_lambda(d[k].expr) for k in d})
+
+    out = {
+        "deduplicate": T.deduplicate,
+        "copy": lambda d: T.copy_dict_of_named_arrays(d, T.CopyMapper()),
+        "map_and_copy-identity": lambda d: T.map_and_copy(d, lambda x: x),
+        "eliminate_dead_code": pt.eliminate_dead_code,
+        "materialize_with_mpms": pt.materialize_with_mpms,
+        "deduplicate_data_wrappers": T.deduplicate_data_wrappers,
+        "rewrite_einsums_with_no_broadcasts":
+            pt.rewrite_einsums_with_no_broadcasts,
+        "unify_axes_tags": pt.unify_axes_tags,
+        "inline_calls": lambda d: pt.inline_calls(
+            pt.tag_all_calls_to_be_inlined(d)),
+        "lower_to_index_lambda": lower_all,
+        "dedup+mpms+dce": lambda d: pt.eliminate_dead_code(
+            pt.materialize_with_mpms(T.deduplicate(d))),
+    }
+    return out
+
+
+def _special_programs():
+    def rolls():
+        n = pt.make_size_param("n")
+        a = pt.make_placeholder("a", (n, 4), np.float64)
+        # shifts whose Python hashes coincide (hash(-1) == hash(-2))
+        return {"o": pt.roll(a, -1, axis=1) - pt.roll(a, -2, axis=1),
+                "p": pt.roll(a, 1, axis=1) + pt.roll(a, 2, axis=1)}
+
+    def csr_in_call():
+        vals = pt.make_placeholder("vals", (6,), np.float64)
+        cols = pt.make_placeholder("cols", (6,), np.int32)
+        rs = pt.make_placeholder("rs", (4,), np.int32)
+        x = pt.make_placeholder("x", (5, 2), np.float64)
+
+        def f(v, c, r, y):
+            return pt.make_csr_matrix((3, 5), v, c, r) @ y
+
+        u = pt.trace_call(f, vals * 2, cols, rs + 0, x)
+        # reference: the same function applied directly (no call nodes)
+        return {"o": u + 1}, {"o": f(vals * 2, cols, rs + 0, x) + 1}
+
+    def shared_datawrappers():
+        d = np.arange(4.0)
+        w1, w2 = pt.make_data_wrapper(d), pt.make_data_wrapper(d)
+        w3 = pt.make_data_wrapper(d.copy())
+        b = pt.make_placeholder("b", (4,), np.float64)
+        return {"o": w1 * b + w2, "p": w3 - w1}
+
+    def unused_parts():
+        n = pt.make_size_param("n")
+        a = pt.make_placeholder("a", (n, 4), np.float64)
+        z = pt.zeros((n, 4)) * a
+        return {"o": pt.where(pt.greater(a, 0), a + z, z), "p": pt.sum(
+            a * pt.zeros(4), axis=1)}
+    return {"rolls": rolls, "csr_in_call": csr_in_call,
+            "shared_datawrappers": shared_datawrappers,
+            "unused_parts": unused_parts}
+
+
+def _inputs_by_identity(expr):
+    """Input nodes below *expr*, gathered by object identity (the library's
+    own gatherers key their caches by structural equality, which is one of
+    the things under test here)."""
+    from pytato.array import InputArgumentBase
+    from pytato.transform import CachedWalkMapper
+    found = []
+
+    class W(CachedWalkMapper):
+        def get_cache_key(self, e):
+            return id(e)
+
+        def post_visit(self, e):
+            if isinstance(e, InputArgumentBase):
+                found.append(e)
+    W()(expr)
+    return found
+
+
+@contract
+class TransformValues(Contract):
+    name = "transform.value"
+    functions = ("pytato.transform:deduplicate",
+                 "pytato.transform:copy_dict_of_named_arrays",
+                 "pytato.transform.dead_code_elimination:eliminate_dead_code",
+                 "pytato.transform.materialize:materialize_with_mpms",
+                 "pytato.transform:deduplicate_data_wrappers",
+                 "pytato.transform.remove_broadcasts_einsum:"
+                 "rewrite_einsums_with_no_broadcasts",
+                 "pytato.transform.metadata:unify_axes_tags",
+                 "pytato.transform.calls:inline_calls",
+                 "pytato.transform.lower_to_index_lambda:to_index_lambda")
+    properties = ("C05",)
+    max_paths = 10
+    notes = ("translation validation: the real transformation runs natively "
+             "(CPython) on each sampled program; its output is proved (z3) to "
+             "denote, for all sizes/inputs/indices, what its input denotes, "
+             "to keep names/shapes/dtypes, and the input graph is compared "
+             "with a deep structural snapshot taken before (not mutated)",)
+
+    def instances(self, tier):
+        import os
+        base = int(os.environ.get("VERIF_SEED", "1") or 1) * 100000
+        progs = [f"random:{base + i}"
+                 for i in range(16 if tier != "thorough" else 160)]
+        progs += list(_special_programs())
+        return [dict(label=f"{t};{p}", transform=t, prog=p)
+                for t in _transformations() for p in progs]
+
+    def canaries(self, tier):
+        return [(dict(label="deduplicate;rolls", transform="deduplicate",
+                      prog="rolls"), "output-plus-one", "transform.value.")]
+
+    def replay(self, inst, clause, model, info):
+        return TRANSFORM_REPLAY.format(prog=inst["prog"],
+                                       tname=inst["transform"])
+
+    def run(self, h, inst):
+        from contracts.c07_kernel import pytato_den, random_program
+        from pyvc.ptlib import in_box, oblige_equal_den, shape_term
+        prog = inst["prog"]
+        direct = None
+        if prog.startswith("random:"):
+            outs = random_program(int(prog.split(":")[1]), lambda k, x: x)
+        else:
+            outs = _special_programs()[prog]()
+            if isinstance(outs, tuple):
+                outs, direct = outs
+        # the reference meaning is that of the program *as written* (before
+        # any pass, including the de-duplication every pass expects)
+        raw = dict(direct if direct is not None else outs)
+        d_in = pt.transform.deduplicate(pt.make_dict_of_named_arrays(outs))
+        fn = _transformations()[inst["transform"]]
+        # snapshot for the non-mutation clause: structural hash + repr of
+        # every node, plus object identities of the named outputs
+        from pytato.analysis import get_num_nodes
+        snap = (hash(d_in), get_num_nodes(d_in, count_duplicates=False),
+                {k: id(d_in[k].expr) for k in d_in},
+                {k: hash(d_in[k].expr) for k in d_in})
+        ref = {k: d_in[k].expr for k in d_in}
+        try:
+            d_out = fn(d_in)
+        except NotImplementedError as e:
+            # an explicit "not supported" (e.g. functions in some passes)
+            h.oblige(f"transform.value.unsupported-is-explicit"
+                     f"[{inst['transform']}]", z3.BoolVal(True),
+                     info=str(e)[:100])
+            return
+        except Exception as e:  # noqa: BLE001
+            h.fail(f"transform.value.no-exception[{inst['transform']}]",
+                   f"{type(e).__name__}: {e}")
+            return
+        snap2 = (hash(d_in), get_num_nodes(d_in, count_duplicates=False),
+                 {k: id(d_in[k].expr) for k in d_in},
+                 {k: hash(d_in[k].expr) for k in d_in})
+        h.oblige(f"transform.value.input-not-mutated[{inst['transform']}]",
+                 z3.BoolVal(snap == snap2 and all(
+                     d_in[k].expr == ref[k] for k in ref)))
+        h.oblige(f"transform.value.names[{inst['transform']}]",
+                 z3.BoolVal(list(d_out) == list(d_in)))
+        ref = raw
+        if direct is not None and inst["transform"] != "inline_calls":
+            # a pass that keeps the calls: their meaning is that of the
+            # inlined body (the inliner itself is validated by the
+            # inline_calls instance against the directly applied function)
+            d_out = pt.inline_calls(pt.tag_all_calls_to_be_inlined(d_out))
+        arrays = ArrayModel()
+        # equal inputs are the same input (data wrappers: same data object)
+        from pytato.array import DataWrapper, Placeholder
+        from pytato.transform import InputGatherer
+        byname, bydata = {}, {}
+        for name in d_in:
+            for i in _inputs_by_identity(ref[name]):
+                if isinstance(i, Placeholder):
+                    byname.setdefault(i.name, i)
+                elif isinstance(i, DataWrapper):
+                    bydata.setdefault(id(i.data), i)
+        for name in d_out:
+            for i in _inputs_by_identity(d_out[name].expr):
+                if isinstance(i, Placeholder) and i.name in byname and \
+                        i is not byname[i.name]:
+                    arrays.alias(i, byname[i.name], i.ndim)
+                elif isinstance(i, DataWrapper) and id(i.data) in bydata \
+                        and i is not bydata[id(i.data)]:
+                    arrays.alias(i, bydata[id(i.data)], i.ndim)
+        # data wrappers of the *input* that wrap the same object are equal too
+        seen = {}
+        for name in d_in:
+            for i in _inputs_by_identity(ref[name]):
+                if isinstance(i, DataWrapper):
+                    if id(i.data) in seen and seen[id(i.data)] is not i:
+                        arrays.alias(i, seen[id(i.data)], i.ndim)
+                    seen.setdefault(id(i.data), i)
+        for nm in ("n",):
+            h.assume(z3.Int(f"sp_{nm}") >= 0)
+        T_ = inst["transform"]
+        new_inputs = sorted({
+            i.name for name in d_out
+            for i in _inputs_by_identity(d_out[name].expr)
+            if isinstance(i, Placeholder) and i.name not in byname})
+        h.oblige(f"transform.value.reads-only-the-program's-inputs[{T_}]",
+                 z3.BoolVal(not new_inputs), info=new_inputs)
+        for name in d_in:
+            e0, e1 = ref[name], d_out[name].expr
+            if e0.ndim != e1.ndim or e0.dtype != e1.dtype:
+                h.fail(f"transform.value.shape-dtype[{T_}]",
+                       f"{name}: {e0.shape}/{e0.dtype} vs {e1.shape}/{e1.dtype}")
+                continue
+            for d_, (s0, s1) in enumerate(zip(e0.shape, e1.shape, strict=True)):
+                h.oblige(f"transform.value.shape[{T_}]",
+                         shape_term(s0) == shape_term(s1))
+            ivars = [z3.Int(f"i{d_}") for d_ in range(e0.ndim)]
+            box = in_box(ivars, e0.shape)
+            want = pytato_den(h, arrays, e0, ivars)
+            got = pytato_den(h, arrays, e1, ivars)
+            if h.canary == "output-plus-one" and z3.is_expr(want):
+                want = want + 1
+            oblige_equal_den(h, f"transform.value.[{T_}]", box, got, want,
+                             props=("C05",))
+
+# }}}
+
+
+TRANSFORM_REPLAY = '''
+import sys
+sys.path.insert(0, "/verif"); sys.path.append("/verif/.deps")
+import numpy as np, pytato as pt
+from pyvc.replaylib import eval_array, reproduced, not_reproduced
+from contracts.c05_transforms import (_special_programs, _transformations,
+                                      _inputs_by_identity)
+from contracts.c07_kernel import random_program
+prog, tname = {prog!r}, {tname!r}
+direct = None
+if prog.startswith("random:"):
+    outs = random_program(int(prog.split(":")[1]), lambda k, x: x)
+else:
+    outs = _special_programs()[prog]()
+    if isinstance(outs, tuple):
+        outs, direct = outs
+raw = dict(direct if direct is not None else outs)
+d_in = pt.transform.deduplicate(pt.make_dict_of_named_arrays(outs))
+try:
+    d_out = _transformations()[tname](d_in)
+except NotImplementedError:
+    not_reproduced("explicitly unsupported")
+except Exception as e:
+    reproduced(f"{{tname}} raised {{type(e).__name__}}: {{e}}")
+if direct is not None and tname != "inline_calls":
+    d_out = pt.inline_calls(pt.tag_all_calls_to_be_inlined(d_out))
+rng = np.random.default_rng(3)
+data = {{"n": 3}}
+for e in list(raw.values()) + [d_out[k].expr for k in d_out]:
+    for i in _inputs_by_identity(e):
+        if isinstance(i, pt.Placeholder) and i.name not in data:
+            shp = tuple(3 if not isinstance(s, int) else s for s in i.shape)
+            if i.name == "rs":
+                data[i.name] = np.array([0, 2, 3, 6], dtype=i.dtype)
+            elif i.dtype.kind in "iu":
+                data[i.name] = rng.integers(0, 4, shp).astype(i.dtype)
+            else:
+                data[i.name] = rng.integers(-4, 5, shp).astype(i.dtype)
+for k in raw:
+    try:
+        want = eval_array(raw[k], data)
+        got = eval_array(d_out[k].expr, data)
+    except KeyError as e:
+        reproduced(f"{{tname}}: output '{{k}}' reads an input {{e}} the program does not have")
+    if got.shape != want.shape or not np.allclose(got, want, equal_nan=True):
+        reproduced(f"{{tname}} changed output '{{k}}': {{got.tolist()!r:.200}} vs {{want.tolist()!r:.200}}")
+not_reproduced("outputs agree on the sampled inputs")
+'''
